@@ -312,8 +312,8 @@ def c01():
 
 # ------------------------------------------------------------------------------------------- C16
 META["C16"] = {
-    "bounds": "Face::Table (the only path by which the library obtains and releases provider buffers): construction on arbitrary table bytes of concrete length (4..24), tags Silf/cmap/head/name, any version threshold; move construction and assignment; destruction; compressed path with LZ4 header and 13..14 compressed bytes",
-    "outside": "face-level sequences (GlyphCache loader, CachedCmap, NameTable, Feat/Sill, load_face failure paths) and the 'no get_table after preloadAll' clause - see DESIGN 3.16 status; allocation failure",
+    "bounds": "Face::Table (the only path by which the library obtains and releases provider buffers): construction on arbitrary table bytes of concrete length (4..24), tags Silf/cmap/head/name, any version threshold; move construction and assignment; destruction; compressed path with LZ4 header and 13..14 compressed bytes; Face::nameTable called again after the preloading call with the provider sealed (no table, 4, 6, 19 arbitrary bytes)",
+    "outside": "face-level sequences (GlyphCache loader, Feat/Sill, load_face failure paths; CachedCmap/DirectCmap/readFeats ownership is asserted in the C10/C18 harnesses) and the 'no get_table after preloadAll' clause for accessors other than the name table; allocation failure",
     "assumptions": ["get_table returns a fresh exact-size buffer; release_table frees it (harness/loader.h)"],
 }
 @prop("C16")
